@@ -10,4 +10,7 @@ META = dict(
 
 
 def harnesses(tier):
-    return []
+    from contracts.modules import transform_harness
+    from contracts.elementwise import SPECS, DOMAIN_RESTRICTED
+    return [transform_harness(SPECS[n], m, {"C17"}) for n in DOMAIN_RESTRICTED for m in ("inverse", "forward") if not (m == "forward" and n.startswith("Exp"))] + \
+           [transform_harness(SPECS["LogTanh"], m, {"C17"}) for m in ("inverse", "forward")]
